@@ -311,14 +311,8 @@ var reviewedCount = map[string]int{
 	"main/parseOptions":                           3,
 	"parser/Parser.evaluateArguments":             1,
 	"parser/Parser.evaluateCompoundAssignment":    4,
-	"parser/Parser.evaluateExists$1":              1,
 	"parser/Parser.evaluateFunctionDefinition$2":  1,
-	"parser/Parser.evaluateItoa$1":                1,
-	"parser/Parser.evaluateLen$1":                 1,
-	"parser/Parser.evaluatePanic$1":               1,
-	"parser/Parser.evaluateRead$1":                1,
 	"parser/Parser.evaluateVarDefinition":         1,
-	"parser/Parser.evaluateWrite$1":               2,
 	"parser/Parser.parse":                         1,
 	"parser/context.currentScope":                 1,
 	"parser/isPublic":                             1,
@@ -343,13 +337,6 @@ var reviewedIndex = map[string]string{
 	"converter.AppCall":                              "in-place rewrite of the ranged argument list",
 	"converter.FuncCall":                             "in-place rewrite of the ranged argument list",
 	"Parser.evaluateArguments":                       "index = len(args)-1 after an append; bounded by the parameter count check directly above",
-	"Parser.evaluateLen$1":                           "builtin reader guarantees minArgs = 1 arguments",
-	"Parser.evaluatePanic$1":                         "builtin reader guarantees minArgs = 1 arguments",
-	"Parser.evaluateCopy$1":                          "explicit length checks above; minArgs = 2",
-	"Parser.evaluateItoa$1":                          "builtin reader guarantees minArgs = 1 arguments",
-	"Parser.evaluateExists$1":                        "builtin reader guarantees minArgs = 1 arguments",
-	"Parser.evaluateRead$1":                          "builtin reader guarantees minArgs = 1 arguments",
-	"Parser.evaluateWrite$1":                         "builtin reader guarantees minArgs = 2; third argument guarded by len > 2",
 	"Parser.evaluateInput$1":                         "guarded by len(expressions) > 0",
 	"Tokenize":                                       "sub-match indices follow from the capture groups of the constant regex; split of a matched comment has ≥ 1 element; source[i:] with i < len(source) by the loop condition",
 	"transpiler.evaluateVarDefinition":               "values and variables have equal length (parser slot rule R-C06: arity checked at construction)",
@@ -367,7 +354,8 @@ var reviewedIndex = map[string]string{
 func c13Index(w *World, r *Result) {
 	rule := "R-C13-index"
 	idxEngine = newCharEngine(w)
-	defer func() { idxEngine = nil }()
+	idxWorld = w
+	defer func() { idxEngine, idxWorld = nil, nil }()
 	roles := append(append([]string{}, libRoles...), "main")
 	for _, role := range roles {
 		for _, fn := range w.Funcs(role) {
@@ -738,6 +726,16 @@ func indexDischarged(fn *ssa.Function, blk *ssa.BasicBlock, base, index ssa.Valu
 			return true
 		}
 	}
+	// 4. constant index into a list parameter of a callback: the function that invokes the
+	// callback guarantees a minimum length (it rejects shorter lists with an error before the
+	// call), and every place that hands the callback over passes a large enough minimum
+	if k, ok := index.(*ssa.Const); ok && k.Value != nil && kind == "index" && idxWorld != nil {
+		if p, ok := base.(*ssa.Parameter); ok && fn.Parent() != nil {
+			if min, ok := callbackMinLen(idxWorld, fn, p); ok && k.Int64() >= 0 && k.Int64() < min {
+				return true
+			}
+		}
+	}
 	// 3. scanning positions of a string: the position is bounded by induction over the places
 	// it is advanced at (see posBound)
 	if isString(base.Type()) && idxEngine != nil {
@@ -752,6 +750,221 @@ func indexDischarged(fn *ssa.Function, blk *ssa.BasicBlock, base, index ssa.Valu
 
 // idxEngine: character tests of the lexer (set by c13Index for the duration of the rule).
 var idxEngine *charEngine
+var idxWorld *World
+
+// callbackMinLen: fn is a function literal that is handed (only) to product functions which
+// call it with a list whose length they have tested against a minimum first; the result is
+// the smallest minimum over all such hand-overs. p is the list parameter of fn.
+func callbackMinLen(w *World, fn *ssa.Function, p *ssa.Parameter) (int64, bool) {
+	pidx := -1
+	for i, fp := range fn.Params {
+		if fp == p {
+			pidx = i
+		}
+	}
+	parent := fn.Parent()
+	if pidx < 0 || parent == nil {
+		return 0, false
+	}
+	best := int64(-1)
+	uses := 0
+	for _, b := range parent.Blocks {
+		for _, ins := range b.Instrs {
+			switch x := ins.(type) {
+			case *ssa.MakeClosure:
+				if x.Fn != ssa.Value(fn) {
+					continue
+				}
+				for _, ref := range *x.Referrers() {
+					if _, ok := ref.(*ssa.Call); !ok {
+						if _, isDbg := ref.(*ssa.DebugRef); !isDbg {
+							return 0, false // stored / passed on in a way that is not followed
+						}
+					}
+				}
+			case *ssa.Call:
+				reader := x.Call.StaticCallee()
+				argIdx := -1
+				for i, a := range x.Call.Args {
+					if a == ssa.Value(fn) {
+						argIdx = i
+					}
+					if mc, ok := a.(*ssa.MakeClosure); ok && mc.Fn == ssa.Value(fn) {
+						argIdx = i
+					}
+				}
+				if argIdx < 0 {
+					continue
+				}
+				if reader == nil || reader.Blocks == nil || !w.IsProduct(pkgOf(reader)) || argIdx >= len(reader.Params) {
+					return 0, false
+				}
+				min, ok := readerGuarantee(reader, reader.Params[argIdx], pidx, x)
+				if !ok {
+					return 0, false
+				}
+				uses++
+				if best < 0 || min < best {
+					best = min
+				}
+			}
+		}
+	}
+	if uses == 0 || best < 0 {
+		return 0, false
+	}
+	return best, true
+}
+
+// readerGuarantee: every call of the callback parameter cb inside reader passes, at position
+// pidx, a list l for which the false side of len(l) < m dominates the call, where m is a
+// parameter of reader (possibly clamped at zero); the value the hand-over passes for m is returned.
+func readerGuarantee(reader *ssa.Function, cb *ssa.Parameter, pidx int, handover *ssa.Call) (int64, bool) {
+	best := int64(-1)
+	calls := 0
+	for _, b := range reader.Blocks {
+		for _, ins := range b.Instrs {
+			c, ok := ins.(*ssa.Call)
+			if !ok || c.Call.Value != ssa.Value(cb) {
+				continue
+			}
+			calls++
+			if pidx >= len(c.Call.Args) {
+				return 0, false
+			}
+			lst := c.Call.Args[pidx]
+			found := false
+			for d := b; d != nil; d = d.Idom() {
+				par := d.Idom()
+				if par == nil || len(par.Instrs) == 0 {
+					continue
+				}
+				ifi, ok := par.Instrs[len(par.Instrs)-1].(*ssa.If)
+				if !ok {
+					continue
+				}
+				if !(par.Succs[1].Dominates(b) && len(par.Succs[1].Preds) == 1) {
+					continue
+				}
+				cmp, ok := ifi.Cond.(*ssa.BinOp)
+				if !ok || cmp.Op != token.LSS || !sameLen(cmp.X, lst) {
+					continue
+				}
+				m, ok := paramValueAt(reader, cmp.Y, handover)
+				if !ok {
+					continue
+				}
+				found = true
+				if best < 0 || m < best {
+					best = m
+				}
+			}
+			if !found {
+				return 0, false
+			}
+		}
+	}
+	if calls == 0 || best < 0 {
+		return 0, false
+	}
+	return best, true
+}
+
+// paramValueAt: the value of v (an int parameter of reader, possibly merged with constants on
+// branches that test the parameter against a constant) for the constant the hand-over passes.
+func paramValueAt(reader *ssa.Function, v ssa.Value, handover *ssa.Call) (int64, bool) {
+	constArg := func(p *ssa.Parameter) (int64, bool) {
+		for i, fp := range reader.Params {
+			if fp == p && i < len(handover.Call.Args) {
+				if k, ok := handover.Call.Args[i].(*ssa.Const); ok && k.Value != nil && k.Value.Kind() == constant.Int {
+					return k.Int64(), true
+				}
+			}
+		}
+		return 0, false
+	}
+	switch x := v.(type) {
+	case *ssa.Parameter:
+		return constArg(x)
+	case *ssa.Const:
+		if x.Value != nil && x.Value.Kind() == constant.Int {
+			return x.Int64(), true
+		}
+	case *ssa.Phi:
+		// edges taken for the passed constant: an edge that comes from the true side of
+		// "param < c" (or the like) is only feasible if the comparison holds for the constant
+		best := int64(-1)
+		for i, e := range x.Edges {
+			pred := x.Block().Preds[i]
+			feasible := true
+			for d := pred; d != nil; d = d.Idom() {
+				par := d.Idom()
+				if par == nil || len(par.Instrs) == 0 {
+					if d == pred {
+						// the edge itself may be the branch
+					}
+					continue
+				}
+				ifi, ok := par.Instrs[len(par.Instrs)-1].(*ssa.If)
+				if !ok {
+					continue
+				}
+				onTrue := par.Succs[0] == d || (par.Succs[0].Dominates(d) && len(par.Succs[0].Preds) == 1)
+				onFalse := par.Succs[1] == d || (par.Succs[1].Dominates(d) && len(par.Succs[1].Preds) == 1)
+				if onTrue == onFalse {
+					continue
+				}
+				cmp, ok := ifi.Cond.(*ssa.BinOp)
+				if !ok {
+					continue
+				}
+				pp, ok1 := cmp.X.(*ssa.Parameter)
+				kk, ok2 := cmp.Y.(*ssa.Const)
+				if !ok1 || !ok2 || kk.Value == nil {
+					continue
+				}
+				pv, ok := constArg(pp)
+				if !ok {
+					continue
+				}
+				if cmpInt(cmp.Op, pv, kk.Int64()) != onTrue {
+					feasible = false
+				}
+			}
+			// the branch block itself (pred ends in the If and the phi block is its successor)
+			if len(pred.Instrs) > 0 {
+				if ifi, ok := pred.Instrs[len(pred.Instrs)-1].(*ssa.If); ok {
+					if cmp, ok := ifi.Cond.(*ssa.BinOp); ok {
+						if pp, ok1 := cmp.X.(*ssa.Parameter); ok1 {
+							if kk, ok2 := cmp.Y.(*ssa.Const); ok2 && kk.Value != nil {
+								if pv, ok := constArg(pp); ok {
+									onTrue := pred.Succs[0] == x.Block()
+									if pred.Succs[0] != pred.Succs[1] && cmpInt(cmp.Op, pv, kk.Int64()) != onTrue {
+										feasible = false
+									}
+								}
+							}
+						}
+					}
+				}
+			}
+			if !feasible {
+				continue
+			}
+			m, ok := paramValueAt(reader, e, handover)
+			if !ok {
+				return 0, false
+			}
+			if best < 0 || m < best {
+				best = m
+			}
+		}
+		if best >= 0 {
+			return best, true
+		}
+	}
+	return 0, false
+}
 
 // posBound: bounds of scanning positions relative to the length of the scanned string.
 //
